@@ -656,7 +656,7 @@ func c17exec(c *h.Ctx, cs *h.Case) {
 				} else {
 					obs = "ok"
 					// the peer's side registers the connection when the identity arrived
-					time.Sleep(20 * time.Millisecond)
+					w.awaitPeerSide(in)
 				}
 				tags["dial"] = true
 			}
